@@ -782,6 +782,11 @@ func corpusScenarios() []scenario {
 		{Name: "member-excluded-by-conflict-entry-of-member", Archs: both(), World: []string{"a"}, Pkgs: []pspec{
 			{Name: "a", Version: "1.0-r0", Archs: both(), Deps: []string{"b", "c"}}, {Name: "b", Version: "1.0-r0", Archs: both()},
 			{Name: "c", Version: "1.0-r0", Archs: both(), Deps: []string{"!b"}}}},
+		// C09-F6 through filterPackages' provides loop: n1 conflicts with NEWER versions of itself ("!n1>=2.0-r0"), and its unrelated provide
+		// zz=2.0-r0 passes that version test: disqualifyProviders excludes n1-1.0-r0 itself once it is expanded; the entry n1=1.0-r0 comes later
+		{Name: "member-excluded-by-its-own-conflict-entry", Archs: both(), World: []string{"a"}, Pkgs: []pspec{
+			{Name: "a", Version: "1.0-r0", Archs: both(), Deps: []string{"n1"}},
+			{Name: "n1", Version: "1.0-r0", Archs: both(), Deps: []string{"!n1>=2.0-r0"}, Provides: []string{"zz=2.0-r0"}}}},
 		// C09-F7: p provides the name of member q at another version; the exact entry q=2.0-r0 disqualifies p, whose own entry then fails
 		{Name: "entry-disqualifies-member-providing-its-name", Archs: both(), World: []string{"a", "b"}, Pkgs: []pspec{
 			{Name: "a", Version: "1.0-r0", Archs: both(), Deps: []string{"q"}}, {Name: "b", Version: "1.0-r0", Archs: both(), Deps: []string{"p"}},
